@@ -5,6 +5,9 @@
  *
  * Script (written by lib/checks/c14.py from TLC's "@@" JSON lines), one record per line:
  *   STR <id> <hex|->                  string table (strvector cells)
+ *   NUM <id> d|i <value>              a number of the K4 "long number text" set: the table entry is the "%f" / "%d" text of the value
+ *                                     (formatted here with snprintf into a buffer of the required length - the reference the stored cell
+ *                                     is compared with, length and content) and StrVectorAppendDouble:big / StrVectorAppendInt:big pass the value
  *   H <id> [palette]                  start of a history; palette = small | huge | frac: how the value CODES of the
  *                                     specification become cell values (strictly increasing, 0 -> 0; see pal_d/pal_u/pal_i)
  *   O <step> <name> <rel> <oor> <args...>   one API call (slots are pool indices, vectors are <len> <v...>)
@@ -47,6 +50,7 @@ static matrix *mx[P]; static tensor *tn[P]; static dvectorlist *dl[P];
 
 #define NSTR 256
 static char *strtab[NSTR];
+static double numd[NSTR]; static int numi[NSTR]; static char numkind[NSTR];   /* NUM entries: the value behind the text */
 
 typedef struct { int step, nsteps, oor_abort, oor_ret, ops, reuse, nextra; char op[64], rel[24], what[400], extra[4][240]; } Shared;
 static Shared *sh;
@@ -114,7 +118,7 @@ static int compare_all(void){
     if((sv[x] != NULL) != xs[x].live) FAIL(RC_MISMATCH, "sv[%d] liveness got %d want %d", x, sv[x] != NULL, xs[x].live);
     if(sv[x]){ XVec *e = &xs[x]; if((int)sv[x]->size != e->n) FAIL(RC_MISMATCH, "sv[%d] size got %zu want %d", x, sv[x]->size, e->n);
       for(int i = 0; i < e->n; i++){ if(e->d[i] < 0) continue;      /* slot of NewStrVector(n) not yet set: content undefined, not read */
-        if(sv[x]->data[i] == NULL || strcmp(sv[x]->data[i], strtab[e->d[i]]) != 0) FAIL(RC_MISMATCH, "sv[%d] cell[%d] got \"%.40s\" want \"%s\"", x, i, sv[x]->data[i] ? sv[x]->data[i] : "(null)", strtab[e->d[i]]); } }
+        if(sv[x]->data[i] == NULL || strcmp(sv[x]->data[i], strtab[e->d[i]]) != 0) FAIL(RC_MISMATCH, "sv[%d] cell[%d] got \"%.40s\" (%zu characters) want \"%.40s\" (%zu characters)", x, i, sv[x]->data[i] ? sv[x]->data[i] : "(null)", sv[x]->data[i] ? strlen(sv[x]->data[i]) : (size_t)0, strtab[e->d[i]], strlen(strtab[e->d[i]])); } }
     if((mx[x] != NULL) != xm[x].live) FAIL(RC_MISMATCH, "mx[%d] liveness got %d want %d", x, mx[x] != NULL, xm[x].live);
     if(mx[x] && (rc = cmp_mat("mx", x, -1, mx[x], &xm[x]))) return rc;
     if((tn[x] != NULL) != xt[x].live) FAIL(RC_MISMATCH, "tn[%d] liveness got %d want %d", x, tn[x] != NULL, xt[x].live);
@@ -262,6 +266,8 @@ static int exec_op(const char *name, int oor, Toks *t){
   else if(IS("StrVectorAppend")){ int x = tk(t), s = tk(t); StrVectorAppend(sv[x], strtab[s]); }
   else if(IS("StrVectorAppendInt")){ int x = tk(t); long v = tk(t); StrVectorAppendInt(sv[x], (int)v); }
   else if(IS("StrVectorAppendDouble")){ int x = tk(t); long v = tk(t); StrVectorAppendDouble(sv[x], (double)v); }
+  else if(IS("StrVectorAppendInt:big")){ int x = tk(t), c = tk(t); if(c < 0 || c >= NSTR || numkind[c] != 'i'){ snprintf(sh->what, sizeof sh->what, "script: %d is no integer NUM entry", c); _exit(RC_SCRIPT); } StrVectorAppendInt(sv[x], numi[c]); }
+  else if(IS("StrVectorAppendDouble:big")){ int x = tk(t), c = tk(t); if(c < 0 || c >= NSTR || numkind[c] != 'd'){ snprintf(sh->what, sizeof sh->what, "script: %d is no double NUM entry", c); _exit(RC_SCRIPT); } StrVectorAppendDouble(sv[x], numd[c]); }
   else if(IS("setStr")){ int x = tk(t), i = tk(t), s = tk(t); setStr(sv[x], i, strtab[s]); }
   else if(IS("getStr")){ int x = tk(t), i = tk(t), s = tk(t); char *r = getStr(sv[x], i); if(r == NULL || strcmp(r, strtab[s]) != 0){ snprintf(sh->what, sizeof sh->what, "getStr returned \"%.40s\" want \"%s\"", r ? r : "(null)", strtab[s]); return RC_MISMATCH; } }
   else if(IS("StrVectorExtend")){ int a = tk(t), b = tk(t), y = tk(t); sv[y] = StrVectorExtend(sv[a], sv[b]); note_new(sv[y]); }
@@ -467,6 +473,15 @@ int main(int argc, char **argv){
       }
       if(more){ char *rest = NULL; hid = strtol(buf + 1, &rest, 10);
         hpal = strstr(rest, "huge") ? PAL_HUGE : strstr(rest, "frac") ? PAL_FRAC : PAL_SMALL; }
+      continue;
+    }
+    if(strncmp(buf, "NUM ", 4) == 0){
+      char *tok[5]; int n = split(buf, tok, 5);
+      if(n == 4){ long id = strtol(tok[1], NULL, 10); if(id >= 0 && id < NSTR){
+          int len; char *txt;
+          if(tok[2][0] == 'd'){ numd[id] = strtod(tok[3], NULL); numkind[id] = 'd'; len = snprintf(NULL, 0, "%f", numd[id]); txt = calloc(1, (size_t)len + 1); snprintf(txt, (size_t)len + 1, "%f", numd[id]); }
+          else { numi[id] = (int)strtol(tok[3], NULL, 10); numkind[id] = 'i'; len = snprintf(NULL, 0, "%d", numi[id]); txt = calloc(1, (size_t)len + 1); snprintf(txt, (size_t)len + 1, "%d", numi[id]); }
+          strtab[id] = txt; } }
       continue;
     }
     if(strncmp(buf, "STR ", 4) == 0){
